@@ -28,7 +28,14 @@ NN(B) == Cardinality(Nodes(B))
 \* deterministic family of type assignments: assignment number k gives atom a the palette entry (a*k + a \div 2 + k) mod |Palette|
 Assign(B, k) == [a \in 1..NN(B) |-> Palette[(((a - 1) * k + ((a - 1) \div 2) + k) % Len(Palette)) + 1]]
 
-Init == \E B \in UNION {Graphs(n) : n \in 2..MaxNodes} \cup Named : \E k \in 0..(NAssign - 1) : g = [bonds |-> B, ty |-> Assign(B, k), k |-> k]
+\* a chain of fourteen atoms whose five types follow each other so that twelve distinct bond types (and more than ten
+\* distinct angle and dihedral types) arise: type ids with two digits
+LongB == [i \in 1..13 |-> <<i - 1, i>>]
+LongTy(v) == LET A == <<"C_3", "C_R", "C_2", "N_3", "O_3">>
+                 sq == <<1, 2, 3, 4, 5, 1, 3, 5, 2, 4, 1, 1, 2, 2>>
+             IN [a \in 1..14 |-> A[((sq[a] + v - 1) % 5) + 1]]
+Init == \/ \E v \in 0..1 : g = [bonds |-> LongB, ty |-> LongTy(v), k |-> 0]
+        \/ \E B \in UNION {Graphs(n) : n \in 2..MaxNodes} \cup Named : \E k \in 0..(NAssign - 1) : g = [bonds |-> B, ty |-> Assign(B, k), k |-> k]
 Next == UNCHANGED g
 Spec == Init /\ [][Next]_vars
 SeqOfNodes(S) == LET RECURSIVE F(_)
